@@ -127,7 +127,20 @@ ProbeGens == {0, 1, 2, MaxGen}
 \* the reader's table answers as the standard prescribes
 LookupOK ==
   phase = "done" =>
-    LET F == Objects IN \A n \in ProbeNums, g \in ProbeGens : ImplGet(F, xref, n, g) = RefPhys(hist, n, g)
+    LET F == Objects IN \A n \in ProbeNums, g \in ProbeGens :
+      /\ ImplGet(F, xref, n, g) = RefPhys(hist, n, g)
+      \* and with the key of the newest definition, for every key scope
+      /\ \A scope \in KeyScopes : ImplGetK(F, xref, n, g, scope) = RefPhysK(hist, n, g, scope)
+\* every object the reader reaches was written under the key the reader uses
+\* (what is written and what is read are separate: WrittenKey is the
+\* writer's, the key field of ImplGetK the reader's)
+KeyOK ==
+  phase = "done" =>
+    LET F == Objects IN \A n \in ProbeNums, g \in ProbeGens, scope \in KeyScopes :
+      LET p == ImplGetK(F, xref, n, g, scope)
+      IN (p # Null /\ p # Error) =>
+           IF p.kind = "obj" THEN p.key = WrittenKey(scope, ObjectAt(F, p.off))
+           ELSE p.key = Plain /\ p.ckey = WrittenKey(scope, CHOOSE o \in RangeOf(F.objects) : o.n = p.stm)
 \* the trailer reported is the newest one
 TrailerOK == phase = "done" => trl = RefTrailer(hist)
 \* the file built for the history means what the history means (PdfFile!Lookup)
